@@ -21,7 +21,9 @@ def generic_run(tier, seed, drv, *, monitors_on, corr, nested=True, flat=True, c
             scn = tweak(scn, rng)
         SC.stats_into(res, scn)
         # every third scenario also on tickit's own in-memory state interface (the real InternalStateServer)
-        for j, b in enumerate(tuple(buses) + (("internal",) if i % 3 == 0 else ())):
+        # ... and every fourth on tickit's own KAFKA state interface (its consumer loop and YAML (de)serialisation) over an
+        # in-process broker with the contract semantics (aiokafka itself is replaced)
+        for j, b in enumerate(tuple(buses) + (("internal",) if i % 3 == 0 else ()) + (("kafka",) if i % 4 == 1 else ())):
             sd = rng.randrange(1 << 30)
             run = run_scenario(scn, bus=b, seed=sd)
             nupd = len(run["trace"].of("update"))
